@@ -224,6 +224,15 @@ def cases_for(tier, s):
                 if tier == "quick" and it == "interior_facet" and cell in ("quadrilateral", "hexahedron"):
                     continue
                 R.append({"kind": "mix", "recipe": {"b": "rule_mix", "cell": cell, "p": {"rules": rules, "itype": it, "shared": len(rules) == 2}}})
+    # user-supplied (custom) rules: symmetric-but-unsorted and non-symmetric point sets, alone and next to a default rule
+    for cell in ("interval", "triangle", "quadrilateral", "tetrahedron", "hexahedron"):
+        for it in ("cell", "exterior_facet", "interior_facet"):
+            if cell == "interval" and it != "cell":
+                continue
+            for wh in ("unsorted_symmetric", "nonsymmetric"):
+                if tier == "quick" and (wh == "nonsymmetric") != (it == "exterior_facet"):
+                    continue
+                R.append({"kind": "mix", "recipe": {"b": "custom_quadrature", "cell": cell, "p": {"itype": it, "which": wh, "mix": it != "cell"}}})
     # a one-point rule and a higher rule sharing a coefficient (selective reduced integration), both declaration orders
     for cell in ("interval", "triangle", "quadrilateral", "tetrahedron", "hexahedron"):
         for lo_first in (True, False):
